@@ -243,11 +243,20 @@ fn run_board(prop: Prop, tier: Tier) -> i32 {
             hash_obs.1 += d;
         }
     }
-    for f in [&castle as &dyn Family, &ep, &promo] {
+    // quick tier: properties whose code path does not depend on the castling / promotion geometry
+    // take a co-prime sub-lattice of those two families (all of them in thorough runs)
+    let strides: [u64; 3] = match (tier, prop) {
+        (Tier::Quick, Prop::C05) => [5, 1, 3],
+        (Tier::Quick, Prop::C06) => [3, 1, 3],
+        (Tier::Quick, Prop::C03) => [3, 1, 1],
+        _ => [1, 1, 1],
+    };
+    for (i, f) in [&castle as &dyn Family, &ep, &promo].into_iter().enumerate() {
         let t0 = Instant::now();
-        let n = for_family(f, &|p| visit(&ctx, p));
-        let n2 = for_family(&Flipped(f), &|p| visit(&ctx, p));
-        fams.push(json!({"family": f.name(), "index_space": f.len(), "legal_members": n, "flipped_members": n2, "secs": t0.elapsed().as_secs_f64()}));
+        let sf = Strided(f, strides[i]);
+        let n = for_family(&sf, &|p| visit(&ctx, p));
+        let n2 = for_family(&Flipped(&sf), &|p| visit(&ctx, p));
+        fams.push(json!({"family": sf.name(), "index_space": sf.len(), "legal_members": n, "flipped_members": n2, "secs": t0.elapsed().as_secs_f64()}));
     }
 
     // CLOCKS
